@@ -261,8 +261,10 @@ func (o outcome) String() string {
 // readings are the points on which the documentation admits more than one interpretation.
 type readings struct {
 	// an IPv4-mapped IPv6 address is compared as the IPv4 address it embeds (true) or literally
-	// as the IPv6 address it is (false)
-	unmap bool
+	// as the IPv6 address it is (false); separately for source addresses and for destination
+	// addresses (IP targets and resolved addresses)
+	unmapSrc bool
+	unmapDst bool
 	// "all domains except those listed" is met (true) / not met (false) by an IP address target
 	ipMeetsInvDomain bool
 	// with name resolution disabled, "all IP prefixes except those listed" is met (true) / not
@@ -273,10 +275,20 @@ type readings struct {
 	lenient bool
 }
 
+// literalMappedIsAReading: the documentation does not say whether an IPv4-mapped IPv6 address
+// (what a dual-stack socket reports for an IPv4 peer) is matched against IPv4 prefixes. While
+// this is true the oracle accepts both answers, independently for sources and destinations, and
+// a router that stops unmapping one of them is NOT reported. Set it to false once "compared as
+// the embedded IPv4 address" is taken to be the documented meaning.
+const literalMappedIsAReading = true
+
 func allReadings() []readings {
 	var out []readings
-	for i := 0; i < 16; i++ {
-		out = append(out, readings{unmap: i&1 == 0, ipMeetsInvDomain: i&2 == 0, domMeetsInvDst: i&4 == 0, lenient: i&8 != 0})
+	for i := 0; i < 32; i++ {
+		if !literalMappedIsAReading && i&17 != 0 {
+			continue
+		}
+		out = append(out, readings{unmapSrc: i&1 == 0, unmapDst: i&16 == 0, ipMeetsInvDomain: i&2 == 0, domMeetsInvDst: i&4 == 0, lenient: i&8 != 0})
 	}
 	return out
 }
@@ -310,8 +322,8 @@ func (t tri) String() string { return [...]string{"no", "yes", "lookup-error"}[t
 
 // --- membership ------------------------------------------------------------------------------
 
-func inPrefixes(list []netip.Prefix, a netip.Addr, rd readings) bool {
-	if a.Is4In6() && rd.unmap {
+func inPrefixes(list []netip.Prefix, a netip.Addr, unmap bool) bool {
+	if a.Is4In6() && unmap {
 		a = a.Unmap()
 	}
 	for _, p := range list {
@@ -443,7 +455,7 @@ func (sp *spec) evalRoute(r *routeSpec, q *request, ans answers, rd readings) ve
 		v.add("srcport", inv(b2t(r.srcPort.contains(q.src.Port())), r.srcPort.inv), r.srcPort.inv)
 	}
 	if r.hasSrc() {
-		v.add("srcaddr", inv(b2t(inPrefixes(sp.allPrefixes(r.srcPrefixes, r.srcPrefixSets), q.src.Addr(), rd)), r.invSrc), r.invSrc)
+		v.add("srcaddr", inv(b2t(inPrefixes(sp.allPrefixes(r.srcPrefixes, r.srcPrefixSets), q.src.Addr(), rd.unmapSrc)), r.invSrc), r.invSrc)
 	}
 	if r.dstPort.present {
 		v.add("dstport", inv(b2t(r.dstPort.contains(q.port)), r.dstPort.inv), r.dstPort.inv)
@@ -477,7 +489,7 @@ func (sp *spec) evalRoute(r *routeSpec, q *request, ans answers, rd readings) ve
 					t = unknown
 					v.failKind = fk
 				} else {
-					t = inv(b2t(inPrefixes(sp.allPrefixes(r.expPrefixes, r.expPrefixSets), ip, rd)), r.invExp)
+					t = inv(b2t(inPrefixes(sp.allPrefixes(r.expPrefixes, r.expPrefixSets), ip, rd.unmapDst)), r.invExp)
 				}
 			}
 			name := "domain"
@@ -492,7 +504,7 @@ func (sp *spec) evalRoute(r *routeSpec, q *request, ans answers, rd readings) ve
 			list := sp.allPrefixes(r.dstPrefixes, r.dstPrefixSets)
 			switch {
 			case !q.isDomain:
-				t = inv(b2t(inPrefixes(list, q.ip, rd)), r.invDst)
+				t = inv(b2t(inPrefixes(list, q.ip, rd.unmapDst)), r.invDst)
 			case r.noResolve:
 				t = no
 				if r.invDst {
@@ -503,7 +515,7 @@ func (sp *spec) evalRoute(r *routeSpec, q *request, ans answers, rd readings) ve
 					t = unknown
 					v.failKind = fk
 				} else {
-					t = inv(b2t(inPrefixes(list, ip, rd)), r.invDst)
+					t = inv(b2t(inPrefixes(list, ip, rd.unmapDst)), r.invDst)
 				}
 			}
 			v.add("dstprefix", t, r.invDst)
